@@ -32,7 +32,7 @@ json.dump({
     "property": prop, "also_checked_by": also, "name": name,
     "needs_to_manifest": "see notes.md",
     "confirmed": {"baseline_440_pass_with_change": True, "demo_exit_with_change": with_change, "demo_exit_without_change": without,
-                  "commands": [f"/venv/bin/python /verif/tools/baseline.py <worktree>", "cd <worktree> && /venv/bin/python demo.py  (with change, then after git stash)"]},
+                  "commands": [f"/venv/bin/python /verif/tools/baseline.py <worktree>", "cd <worktree> && /venv/bin/python demo.py  (with change, then after git apply -R patch.diff)"]},
     "changed_lines": lines, "source": "independent sub-agent given only the property text and a scratch worktree",
 }, open(f"{dst}/meta.json", "w"), indent=1)
 print("adopted ->", dst)
